@@ -322,15 +322,14 @@ def witness_of(tr, j, col, clause):
 
 # ---------------------------------------------------------------- TLC trace validation
 
-def trace_const(variant):
-    return dict(Symbols=set(), RawCodes=set(), SepCodes=set(), Escs=set(), Quote=QUOTE,
-                MaxFields=0, MaxLen=0, Variant=variant, Emit=False)
+TRACE_CONST = dict(Symbols=set(), RawCodes=set(), SepCodes=set(), Escs=set(), Quote=QUOTE,
+                   MaxFields=0, MaxLen=0, Variants=set(), Emit=False)
 
 
-def validate(traces, variant, rows_per_run=1500, par=8):
+def validate(traces, variant, rows_per_run=3000, par=4):
     """CsvTrace.tla on batches.  Returns (verdicts, stats); verdicts[i] =
     ('ACCEPT', steps, insync) | ('REJECT', n, [(row, col, clause), ...])."""
-    cfg = C.cfg(spec='TraceSpec', constants=trace_const(variant),
+    cfg = C.cfg(spec='TraceSpec', constants=TRACE_CONST,
                 invariants=['TraceCharacterization', 'TraceRoundTrip'])
     stats = {'states': 0, 'transitions': 0, 'wall_s': 0.0, 'tlc_runs': 0}
     verdicts = [None] * len(traces)
@@ -350,9 +349,9 @@ def validate(traces, variant, rows_per_run=1500, par=8):
         with C.scratch('rxsci-verif.c18tr.') as d:
             tf = os.path.join(d, 'traces.json')
             with open(tf, 'w') as f:
-                C.json.dump([{k: v for k, v in t.items() if k in ('sep', 'esc', 'rows', 'extra')}
-                             for t in part], f)
-            r = C.run_tlc('CsvTrace', cfg, workers=1, env={'TRACE_FILE': tf}, allow_violation=False)
+                C.json.dump([dict({k: v for k, v in t.items() if k in ('sep', 'esc', 'rows', 'extra')},
+                                  variant=variant) for t in part], f)
+            r = C.run_tlc('CsvTrace', cfg, workers=3, env={'TRACE_FILE': tf}, allow_violation=False)
         got = {}
         for v in extract(r.stdout, 'VERDICT'):
             if v[1] in got:
@@ -534,10 +533,10 @@ def do_replay(path):
 ALPHA = {97, 32, 44, 34, 92}        # letter, blank, separator symbol, quote, escape
 
 
-def csv_const(symbols, raw, seps, fields, maxlen, variant, emit):
+def csv_const(symbols, raw, seps, fields, maxlen, variants, emit):
     return dict(Symbols=set(symbols), RawCodes={code(x) for x in raw},
                 SepCodes={code(x) for x in seps}, Escs={92}, Quote=QUOTE, MaxFields=fields,
-                MaxLen=maxlen, Variant=variant, Emit=emit)
+                MaxLen=maxlen, Variants=set(variants), Emit=emit)
 
 
 def main(tier, replay):
@@ -551,40 +550,32 @@ def main(tier, replay):
 
     # 1. exhaustive model checking + enumeration for the binding -----------------------
     jobs = []   # (module, constants, invariants, role)
-    inv_repo = ['TypeOK', 'SplitJoin', 'Collect', 'Characterization', 'EmitRow']
-    inv_fix = ['TypeOK', 'SplitJoin', 'RoundTrip']
-    if thorough:
-        bounds = [(3, 2), (2, 3)]
-    else:
-        bounds = [(2, 2), (3, 1)]
-    for (nf, ml) in bounds:
-        jobs.append(('Csv', csv_const(ALPHA, ['7', '-7'], [',', ',,'], nf, ml, 'repo', True),
-                     inv_repo, 'enumerate'))
-        jobs.append(('Csv', csv_const(ALPHA, ['7', '-7'], [',', ',,'], nf, ml, 'parity', False),
-                     inv_fix, 'fix'))
+    # one run explores both transcriptions: "repo" (Characterization, Collect, EmitRow) and
+    # the proposed fix (RoundTrip)
+    inv_csv = ['TypeOK', 'SplitJoin', 'Collect', 'Characterization', 'RoundTrip', 'EmitRow']
+    for (nf, ml) in ([(3, 2), (2, 3)] if thorough else [(2, 2), (3, 1)]):
+        jobs.append(('Csv', csv_const(ALPHA, ['7', '-7'], [',', ',,'], nf, ml, ['repo', 'parity'], True),
+                     inv_csv, 'enumerate'))
     if thorough:
         # the largest space: 85^3 + 85^2 + 85 = 621,435 rows of strings of length <= 3
         # over {letter, separator, quote, escape}; nothing is printed
-        jobs.append(('Csv', csv_const(ALPHA - {32}, [], [','], 3, 3, 'repo', False),
+        jobs.append(('Csv', csv_const(ALPHA - {32}, [], [','], 3, 3, ['repo'], False),
                      ['Characterization'], 'big'))
-    nl = 6 if thorough else 5
-    jobs.append(('CsvNumber', dict(Digits={48, 49, 53, 57}, MaxLen=nl, Variant='repo', Emit=True),
-                 ['TypeOK', 'Small', 'Collect', 'Characterization', 'EmitNum'], 'enumerate'))
-    jobs.append(('CsvNumber', dict(Digits={48, 49, 53, 57}, MaxLen=nl, Variant='float', Emit=False),
-                 ['TypeOK', 'Small', 'Correct'], 'fix'))
+    jobs.append(('CsvNumber', dict(Digits={48, 49, 53, 57}, MaxLen=6 if thorough else 5,
+                                   Variants={'repo', 'float'}, Emit=True),
+                 ['TypeOK', 'Small', 'Collect', 'Characterization', 'Correct', 'EmitNum'], 'enumerate'))
 
     def mc(job):
         m, c, inv, role = job
         big = role == 'big'
         return C.run_tlc(m, C.cfg(constants=c, invariants=inv), coverage=not big,
-                         workers=8 if big else 3)
+                         workers=8 if big else 4)
     rs = C.par([lambda j=j: mc(j) for j in jobs], max_workers=len(jobs))
     mc_stats = []
     model_rows, model_fail_rows, model_nums, model_fail_nums, lenient = [], [], [], [], []
     for (m, c, inv, role), r in zip(jobs, rs):
         if r.violated:
-            raise C.MachineryError('%s (%s) model violates %s:\n%s'
-                                   % (m, c.get('Variant'), r.violated, r.error_trace))
+            raise C.MachineryError('%s model violates %s:\n%s' % (m, r.violated, r.error_trace))
         mc_stats.append((m, c, r, role))
         if role == 'enumerate' and m == 'Csv':
             model_rows += extract(r.stdout, 'ROW')
@@ -594,8 +585,8 @@ def main(tier, replay):
             model_fail_nums += extract(r.stdout, 'FAILNUM')
             lenient += extract(r.stdout, 'LENIENT')
     V.phase('model checking')
-    other = [f for f in model_fail_rows if f[-1] != 'trailing-esc'] + \
-            [f for f in model_fail_nums if f[-1] != 'sign']
+    other = [f for f in model_fail_rows if f[-1] != 'trailing-esc' or f[1] != 'repo'] + \
+            [f for f in model_fail_nums if f[-1] != 'sign' or f[1] != 'repo']
     if other:   # excluded by Characterization; kept as a cross-check of the printing path
         raise C.MachineryError('model fails outside the characterized class: %r' % other[:3])
 
@@ -664,6 +655,9 @@ def main(tier, replay):
             num_sync['out'] += 1
             num_out.append((text, repr(real), repr(exp)))
     logging.disable(logging.NOTSET)
+    n_canon = {'float': len(canon_f), 'int': len(canon_i)}
+    if not thorough:    # ints are a sample in the quick tier; every float numeral is replayed
+        canon_i = rng.sample(canon_i, min(len(canon_i), 300))
     for i in range(0, len(canon_f), 60):
         traces.append(mem_trace('f', [(x,) for x in canon_f[i:i + 60]], ',', '\\', op='enum-num'))
     for i in range(0, len(canon_i), 60):
@@ -686,7 +680,7 @@ def main(tier, replay):
         esc = ESCS[n % len(ESCS)]
         clean = n % 3 != 2          # every third file: any string (ends at the first known defect)
         kinds = ['sifbs', 'ssf', 'sis', 'fsbi'][n % 4]
-        target = rng.choice([70000, 140000]) if n else 70000
+        target = rng.choice([70000, 140000]) if n > 1 else 70000
         rows = []
         while True:      # grow until the real file is longer than the target
             _, rr = rnd_rows(rng, sep, esc, clean, 100, kinds, long=True)
@@ -745,9 +739,9 @@ def main(tier, replay):
     if lenient:
         V.note('parse_decimal (model) gives a value to %d of %d ill-formed numerals that float() '
                'rejects, e.g. %s -> %s; not constrained by C18 (str() never prints them)'
-               % (len(lenient), len(model_nums), dec(lenient[0][1]),
-                  '%s%d/%d' % ('-' if lenient[0][2]['neg'] else '', lenient[0][2]['num'],
-                               lenient[0][2]['den'])))
+               % (len(lenient), len(model_nums), dec(lenient[0][2]),
+                  '%s%d/%d' % ('-' if lenient[0][3]['neg'] else '', lenient[0][3]['num'],
+                               lenient[0][3]['den'])))
     uncovered = sorted({a for (_, _, r, _) in mc_stats for a, (d, t) in r.coverage.items() if t == 0})
     small = [t for t in traces if t['op'] == 'mem' and 0 < len(t['rows'][0]['line']) < 40]
     samples = [{'kind': 'random row', 'trace': dict(small[0], rows=small[0]['rows'][:1])}] if small else []
@@ -767,6 +761,7 @@ def main(tier, replay):
         'model_numerals_enumerated': len(model_nums),
         'model_numerals_failing': {'sign': len(model_fail_nums), 'other': 0,
                                    'lenient (ill-formed, informational)': len(lenient)},
+        'canonical_numerals': n_canon,
         'canonical_numerals_replayed': {'float': len(canon_f), 'int': len(canon_i)},
         'numerals_model_vs_impl': num_sync,
         'tlc_behaviours_replayed': n_replayed,
